@@ -58,6 +58,32 @@ func (e *Env) Failf(clause, class, format string, args ...any) {
 	e.S.Note("oracle", clause+": "+e.Viol.Msg)
 }
 
+// Phased runs a scenario several times in a row inside one run (plan extra
+// "uses" > 1): when everything is quiescent and nothing was cancelled, the
+// oracle of the finished use is evaluated and the system is built again, in
+// the same process state. This is what exposes state carried over from a
+// previous call (package-level caches, pools, counters).
+func Phased(e *Env, build func(*Env), final func(*Env)) {
+	phase := 1
+	build(e)
+	e.AtQuiescence = func() bool {
+		if phase >= e.Plan.X("uses") || e.Cancelled.Load() || e.Viol != nil {
+			return false
+		}
+		e.Quiescent = true
+		e.Tasks = e.S.Snapshot()
+		final(e)
+		e.Quiescent = false
+		if e.Viol != nil {
+			return false
+		}
+		phase++
+		e.Probe("second_use_in_one_run")
+		build(e)
+		return true
+	}
+}
+
 // FailPost records a violation found after the bubble ended.
 func (e *Env) FailPost(clause, class, format string, args ...any) {
 	if e.Viol != nil {
